@@ -13,13 +13,18 @@
    - C04_pulled_values_same_in_every_interleaving (Sched/PullRun.v): the pulled half of the inputs of a step is the same
      in two interleavings in which every provider produces the same outputs in its own order (each run's lookups are
      lookups in that run's final caches, C03);
-   Missing (C04_partial): the same for the pushed half (the set of events a step receives is schedule independent by
-   C03's run-level event theorems, the order in which two sources' events are merged is not proved), and closing the
-   induction "same inputs -> same replies -> same outputs" for simulators whose replies depend on their inputs; debug mode and remote transport are not
-   modelled and are compared by differential execution only. *)
+   - C04_pushed_values_same_in_every_interleaving (Sched/PushRun.v): the pushed half - for a slot (destination attribute,
+     source simulator) the entries of the timed input buffer are, in arrival order, a function of the source's own outputs
+     (minus what earlier steps of the destination have consumed); every entry due at or before t is there when the step for
+     t begins (C03); the step takes the one with the latest due time, the last-arrived among equals - so in two
+     interleavings in which the source produces the same outputs in its own order and the destination has begun the same
+     earlier steps, the step is given the same event value on that slot, or reads its registers in both;
+   Missing (C04_partial): closing the induction "same inputs -> same replies -> same outputs" for simulators whose replies
+   depend on their inputs (and with it the equality of the registers when no event is due); debug mode and remote transport
+   are not modelled and are compared by differential execution only. *)
 From Coq Require Import ZArith List Bool Arith.
 Import ListNotations.
-From MV Require Import Time.Spec Time.Ord Static.Build Sched.Timing Sched.Inv Sched.Main Sched.Quiet Sched.Plane Sched.DataP Sched.Mono Sched.Determ Sched.PruneRun Sched.PullRun.
+From MV Require Import Time.Spec Time.Ord Static.Build Sched.Timing Sched.Inv Sched.Main Sched.Quiet Sched.Plane Sched.DataP Sched.Mono Sched.Determ Sched.PruneRun Sched.PullRun Sched.EventRun Sched.SetData Sched.Persist Sched.PushRun.
 Open Scope Z_scope.
 
 Theorem C04_partial_guards_monotone : forall st s s' i t,
@@ -126,4 +131,67 @@ Proof.
   split; [vm_compute; repeat split; try (apply le_n || apply le_S, le_n); intros e He; repeat (destruct He as [<-|He]); try contradiction; intros Hc; discriminate Hc|].
   split; [intros src; destruct src as [|[|src]]; reflexivity|].
   split; vm_compute; reflexivity.
+Qed.
+
+(* the pushed half of the inputs.  For a slot (attribute a of simulator j, source simulator k) that no pulled connection
+   writes: in two interleavings (complete runs from the initial state) in which k produces the same outputs in its own order
+   and the same steps of j have begun before BEGIN(j,t), either both runs give the step the same event value - an event
+   due in (previous step of j, t] - or none is due in either and both read their registers (a set_data value, else the
+   remembered value) *)
+Theorem C04_pushed_values_same_in_every_interleaving : forall st dt, static_ok st -> forall j a k t,
+  push_strict st dt -> not_pulled dt j a k ->
+  forall preA mA postA spA dspA s1A ds1A inpA sfA dsfA, in_range st (preA ++ DBegin j t mA :: postA) ->
+  dfinal st dt (init_state st) (init_dstate dt) preA = Some (spA, dspA) ->
+  dapply_gen false st dt (spA, dspA) (DBegin j t mA) = DOk s1A ds1A (Some inpA) ->
+  dfinal st dt (init_state st) (init_dstate dt) (preA ++ DBegin j t mA :: postA) = Some (sfA, dsfA) ->
+  forall preB mB postB spB dspB s1B ds1B inpB sfB dsfB, in_range st (preB ++ DBegin j t mB :: postB) ->
+  dfinal st dt (init_state st) (init_dstate dt) preB = Some (spB, dspB) ->
+  dapply_gen false st dt (spB, dspB) (DBegin j t mB) = DOk s1B ds1B (Some inpB) ->
+  dfinal st dt (init_state st) (init_dstate dt) (preB ++ DBegin j t mB :: postB) = Some (sfB, dsfB) ->
+  produced k (preA ++ DBegin j t mA :: postA) = produced k (preB ++ DBegin j t mB :: postB) ->
+  (forall t', begins_of j preA t' <-> begins_of j preB t') ->
+  (exists due v, iget a k inpA = Some (Some v) /\ iget a k inpB = Some (Some v) /\ due <= thd t /\
+                 (forall T, lastb j preA = Some T -> T < due)) \/
+  (iget a k inpA = iget a k (merge_all_i (setdata (dspA j)) (persist (dspA j))) /\
+   iget a k inpB = iget a k (merge_all_i (setdata (dspB j)) (persist (dspB j)))).
+Proof. exact pushed_same_in_two_runs. Qed.
+Print Assumptions C04_pushed_values_same_in_every_interleaving.
+
+(* the buffer of a slot after any run from the initial state is the source's stream minus what was due at a step of the
+   destination that has begun: it does not depend on the interleaving otherwise *)
+Theorem C04_slot_buffer_is_the_sources_stream : forall st dt, static_ok st -> forall j a k evs s ds,
+  push_strict st dt -> in_range st evs -> dfinal st dt (init_state st) (init_dstate dt) evs = Some (s, ds) ->
+  map pv (slotbuf j a k ds) = filter (above (lastb j evs)) (stream dt j a k evs) /\
+  stream dt j a k evs = flat_map (fun od : Z * odata => slot_pushes dt j a k k (fst od) (snd od)) (produced k evs).
+Proof. intros st dt OK j a k evs s ds PS HR H. split; [apply (slot_of_run st dt OK j a k evs s ds PS HR H)|apply stream_produced]. Qed.
+Print Assumptions C04_slot_buffer_is_the_sources_stream.
+
+(* non-vacuity: A (time-based) -> trigger input of B (event-based); in the second interleaving A performs both its steps
+   before B begins.  The tables pass the checks, both runs succeed, A produces the same outputs in both, A's stream into the
+   slot is [(0,7); (1,8)], and B is given 7 at time 0 and 8 at time 1 in both *)
+Example C04_pushed_nonvacuous :
+  let f := mkF true true false true false 0 false false true in
+  let sc := mkScen [None] (fun _ => 0%nat) (fun i => if Nat.eqb i 0 then TimeBased else EventBased) 2
+                   [mkConn 0 1 2 1 f false 0] [] 2 100 false true in
+  let eA := [DEv (EvStart 0); DEv (EvStart 1); DBegin 0 [0] 2; DEv (EvStep 0 (Some 1)); DData 0 0 [2%nat] [(2%nat,7)];
+             DBegin 1 [0] 0; DEv (EvStep 1 None);
+             DBegin 0 [1] 2; DEv (EvStep 0 (Some 2)); DData 0 1 [2%nat] [(2%nat,8)]; DBegin 1 [1] 2; DEv (EvStep 1 None)] in
+  let eB := [DEv (EvStart 0); DEv (EvStart 1); DBegin 0 [0] 2; DEv (EvStep 0 (Some 1)); DData 0 0 [2%nat] [(2%nat,7)];
+             DBegin 0 [1] 2; DEv (EvStep 0 (Some 2)); DData 0 1 [2%nat] [(2%nat,8)];
+             DBegin 1 [0] 0; DEv (EvStep 1 None); DBegin 1 [1] 2; DEv (EvStep 1 None)] in
+  match prepare 100 sc with
+  | Prepared st dt t anc =>
+      check_static sc t anc = true /\ push_strictb st dt = true /\
+      (exists r, dfinal st dt (init_state st) (init_dstate dt) eA = Some r) /\ (exists r, dfinal st dt (init_state st) (init_dstate dt) eB = Some r) /\
+      produced 0 eA = produced 0 eB /\ stream dt 1%nat 1%nat 0%nat eA = [(0, 7); (1, 8)] /\
+      filter (fun o => match o with Some _ => true | None => false end) (dinputs false st dt (init_state st) (init_dstate dt) eA) =
+        [Some []; Some [(1%nat, [(0%nat, Some 7)])]; Some []; Some [(1%nat, [(0%nat, Some 8)])]] /\
+      filter (fun o => match o with Some _ => true | None => false end) (dinputs false st dt (init_state st) (init_dstate dt) eB) =
+        [Some []; Some []; Some [(1%nat, [(0%nat, Some 7)])]; Some [(1%nat, [(0%nat, Some 8)])]]
+  | _ => False end.
+Proof.
+  vm_compute prepare. cbv beta iota.
+  split; [vm_compute; reflexivity|]. split; [vm_compute; reflexivity|].
+  split; [eexists; vm_compute; reflexivity|]. split; [eexists; vm_compute; reflexivity|].
+  split; [reflexivity|]. split; vm_compute; auto.
 Qed.
